@@ -332,9 +332,15 @@ HAND = [b'../../x', b'/etc/x', b'..', b'.', b'-rf', b'a/../b', b'a/a', b'a/keep'
 def fam_names(tier):
     """all names of length <=3 over {'/', '.', '-', 'a', 0x01, '~'} + hand-picked 7-character names x --dir same/different x destination spellings"""
     names = []
-    for k in (1, 2, 3):
+    for k in ((1, 2, 3) if tier == 'quick' else (1, 2, 3, 4)):
         for t in itertools.product(ALPHA, repeat=k):
             names.append(bytes(t))
+    if tier == 'thorough':
+        for k in (1, 2, 3):
+            for t in itertools.product(ALPHA + [0x5C, 0x20, 0x7F, 0x2A, 0x0A], repeat=k):
+                if bytes(t) not in names:
+                    names.append(bytes(t))
+        names = list(dict.fromkeys(names))
     names += HAND
     # the catalogue stores 8-bit bytes; the tool masks bit 7 when it builds host names, so every hostile name
     # also comes with bit 7 set on all bytes, on the '/' only, and on everything but the '/'
@@ -368,7 +374,8 @@ def fam_longdest(tier):
 def fam_dirs(tier):
     """directory byte every value 0x01-0x7F x names {x, ., /x, ./x, .., a/a} x --dir {$, same byte when printable}"""
     for d in list(range(1, 128)) + [0xAF, 0xAE]:
-        for nm in (b'x', b'.', b'/x', b'./x', b'..', b'a/a', b'./cana'):
+        for nm in ((b'x', b'.', b'/x', b'./x', b'..', b'a/a', b'./cana') if tier == 'quick' else
+                   (b'x', b'.', b'/x', b'./x', b'..', b'a/a', b'./cana', b'../x', b'/', b'//', b'.inf', b'a', b'-', b'x.ssd', b'..a', b'a..', b'/a/')):
             for cur in ('$', chr(d & 0x7F) if 0x21 <= (d & 0x7F) < 0x7F else 'Q'):
                 yield {'w': 'extract', 'cmd': 'extract-files', 'entries': [[nm.hex(), d, 100]], 'cur': cur,
                        'dest': 'dest' if d % 2 else 'dest/'}
